@@ -32,6 +32,11 @@ theorem exponent_small (T : Ty) (b : Buf) (n : Nat) (h : WF b n) (hT : Holds T n
     rcases this with rfl | rfl | rfl | rfl | rfl <;> decide
   refine ⟨by omega, by omega, by omega⟩
 
+/-- a NaN payload needs one digit of headroom (the most significant digit position is not available to it) -/
+def nanExtra : Numeral → Nat
+  | .nan _ _ _ => 1
+  | _ => 0
+
 /-- **C02.** For every well-formed buffer of every width and every type able to hold it, the formatted text is a
 numeral of the grammar whose sign, coefficient and exponent (or: infinity; or NaN kind, sign and payload) are exactly
 those IEEE 754 assigns to the bit pattern; scientific notation with more than one digit has a decimal point (and the
@@ -39,7 +44,7 @@ printed exponent is adjusted accordingly, which is what denoting the same datum 
 at most the precision. -/
 theorem C02_format (T : Ty) (b : Buf) (n : Nat) (h : WF b n) (hT : Holds T n) :
     ∃ num, parse (toText T b) = some num ∧ num.datum = decode ⟨n⟩ b.bits ∧ layoutOk num = true ∧
-           num.digitCount ≤ 9 * n - 2 := by
+           num.digitCount + nanExtra num ≤ 9 * n - 2 := by
   by_cases hfin : isFinite b = true
   · rw [toText_finite T b hfin, precision_eq b n h, decode_finite b n h hfin]
     have hd := digitsOK b n h
@@ -47,11 +52,15 @@ theorem C02_format (T : Ty) (b : Buf) (n : Nat) (h : WF b n) (hT : Holds T n) :
     obtain ⟨num, h1, h2, h3⟩ := fmtFinite_spec T n _ _ hd (unbiasedExponent b).1 (exponent_small T b n h hT hfin) (isSignNegative b)
     refine ⟨num, h1, ?_, h3, ?_⟩
     · rw [h2]; rfl
-    · exact fmtFinite_digitCount T n _ _ hd (unbiasedExponent b).1 (exponent_small T b n h hT hfin) (isSignNegative b) num h1
+    · have hc := fmtFinite_digitCount T n _ _ hd (unbiasedExponent b).1 (exponent_small T b n h hT hfin) (isSignNegative b) num h1
+      cases num with
+      | finite _ _ _ _ => simpa [nanExtra] using hc
+      | inf _ => simp [Numeral.datum] at h2
+      | nan _ _ _ => simp [Numeral.datum] at h2
   · have hfin' : isFinite b = false := by simpa using hfin
     by_cases hinf : isInfinite b = true
     · rw [toText_infinite T b hfin' hinf, decode_infinite b n h hinf]
-      exact ⟨.inf (isSignNegative b), fmtInf_spec _, rfl, rfl, by simp [Numeral.digitCount]⟩
+      exact ⟨.inf (isSignNegative b), fmtInf_spec _, rfl, rfl, by simp [Numeral.digitCount, nanExtra]⟩
     · have hinf' : isInfinite b = false := by simpa using hinf
       have hnan : isNan b = true := by
         rcases C08.C08_partition b with ⟨h1, _, _⟩ | ⟨_, h2, _⟩ | ⟨_, _, h3⟩
@@ -61,7 +70,8 @@ theorem C02_format (T : Ty) (b : Buf) (n : Nat) (h : WF b n) (hT : Holds T n) :
       obtain ⟨hl, he, _⟩ := decodeDeclets_spec b n h
       rw [toText_nan T b hfin' hinf', decode_nan b n h hnan]
       obtain ⟨num, h1, h2, h3⟩ := fmtNan_spec n (decodeDeclets b) hl he (isQuietNan b) (isSignNegative b)
-      refine ⟨num, h1, ?_, ?_, by omega⟩
+      have hp := h.pos
+      refine ⟨num, h1, ?_, ?_, ?_⟩
       · rw [h2]
         have hk := C08.C08_nan_kinds b
         rw [hnan] at hk
@@ -72,6 +82,10 @@ theorem C02_format (T : Ty) (b : Buf) (n : Nat) (h : WF b n) (hT : Holds T n) :
         | finite s i fr ex => simp [Numeral.datum] at h2
         | inf s => rfl
         | nan s g pl => rfl
+      · cases num with
+        | finite s i fr ex => simp [Numeral.datum] at h2
+        | inf s => simp [Numeral.datum] at h2
+        | nan s g pl => simp only [nanExtra]; omega
 
 /-- `{:?}` and `{}` are the same function of the bytes in the model (both call `decimal_to_fmt`); the
     correspondence check compares the two on the implementation. -/
